@@ -28,7 +28,7 @@ var (
 	// numbers whose spelling is not trivial: 17 significant digits, exponents of both signs, the extremes
 	ScalarsNumbers = []any{0.0, 1.0, -1.0, 2.5, 0.1 + 0.2, 0.3, 1e21, 1e-7, 1.2345678901234568e20, 123456789012345680.0, 5e-324, 1.7976931348623157e308, 100.0, 1.0 / 3, "1", "a"}
 	KeysSmall      = []string{"a", "b", "c", "d"}
-	KeysHostile    = []string{"a", "b", "", "a/b", "m~n", "~0", "~1", "~01", "é", " ", "x y", "1a", "-x", "a\"b", "\\", "<&>", "a/b/c", "~~", "x/y~z/~0~1", "//", "a b", "b a", "a 1", "k\u0001", "\u007f", "bell\a", "e\u0301", "A", "K", "\u212a", "a\n", ".", "..", "\ufffd", "\u202eabc", "a\u200db"}
+	KeysHostile    = []string{"a", "b", "", "a/b", "m~n", "~0", "~1", "~01", "é", " ", "x y", "1a", "-x", "a\"b", "\\", "<&>", "a/b/c", "~~", "x/y~z/~0~1", "//", "a b", "b a", "a 1", "k\u0001", "\u007f", "bell\a", "e\u0301", "A", "K", "\u212a", "a\n", ".", "..", "\ufffd", "\u202eabc", "a\u200db", "\u0664\u0662", "\uff11\uff12", "\u0967\u0968", "\\u0026", "a\\u003cb"}
 	KeysNumberish  = []string{"0", "1", "-1", "01", "-", "+1", "1e3", "12"}
 )
 
